@@ -30,6 +30,9 @@ pub struct Case {
 	/// with real proofs of work siblings always tie and every reorganisation lengthens the chain
 	#[serde(default = "yes")]
 	pub real: bool,
+	/// the node runs in archive mode (compaction prunes the MMRs, every block stays in the database)
+	#[serde(default)]
+	pub archive: bool,
 }
 
 fn yes() -> bool {
@@ -84,10 +87,10 @@ pub fn case_strategy(max_ops: usize, neg_weight: u32) -> impl Strategy<Value = C
 		1 => Just(vec![Op::Compact]),
 		1 => Just(vec![Op::Validate]),
 	];
-	(prop::bool::weighted(0.35), prop::collection::vec(seg, 1..=max_ops), prop::bool::weighted(0.7)).prop_map(move |(base, segs, real)| {
+	(prop::bool::weighted(0.35), prop::collection::vec(seg, 1..=max_ops), prop::bool::weighted(0.7), prop::bool::weighted(0.25)).prop_map(move |(base, segs, real, archive)| {
 		let mut ops: Vec<Op> = segs.into_iter().flatten().collect();
 		ops.truncate(max_ops);
-		Case { base, ops, real: real || base }
+		Case { base, ops, real: real || base, archive }
 	})
 }
 
@@ -193,16 +196,20 @@ pub fn open_case(ctx: &Ctx, use_base: bool) -> Result<(ChainBox, World, usize), 
 }
 
 pub fn open_case_mode(ctx: &Ctx, use_base: bool, real: bool) -> Result<(ChainBox, World, usize), Fail> {
+	open_case_full(ctx, use_base, real, false)
+}
+
+pub fn open_case_full(ctx: &Ctx, use_base: bool, real: bool, archive: bool) -> Result<(ChainBox, World, usize), Fail> {
 	let dir = ctx.scratch_dir("c");
 	if use_base {
 		let b = base(ctx).map_err(|e| Fail::new("harness:base", e))?;
 		copy_dir(&b.dir, &dir).map_err(|e| Fail::new("harness:copy", e.to_string()))?;
-		let cb = ChainBox::open(&dir).map_err(|e| Fail::new("init-base-copy", e))?;
+		let cb = ChainBox::open_mode(&dir, archive).map_err(|e| Fail::new("init-base-copy", e))?;
 		let w = clone_world(&b.world);
 		let head = w.nodes.len() - 1;
 		Ok((cb, w, head))
 	} else {
-		let cb = ChainBox::open(&dir).map_err(|e| Fail::new("init-fresh", e))?;
+		let cb = ChainBox::open_mode(&dir, archive).map_err(|e| Fail::new("init-fresh", e))?;
 		let w = World::new(&cb.genesis, real);
 		Ok((cb, w, 0))
 	}
@@ -339,7 +346,7 @@ pub fn run_case(ctx: &Ctx, case: &Case, counting: bool) -> PResult {
 fn run_case_inner(ctx: &Ctx, case: &Case, counting: bool) -> PResult {
 	init_thread();
 	let ev = &ctx.ev;
-	let (mut cb, mut w, mut head) = open_case_mode(ctx, case.base, case.real)?;
+	let (mut cb, mut w, mut head) = open_case_full(ctx, case.base, case.real, case.archive)?;
 	let pm = if case.real { PowMode::Real } else { PowMode::Skip(1) };
 	let base_nodes = w.nodes.len();
 	let mut st = Stats {
@@ -471,6 +478,9 @@ fn run_case_inner(ctx: &Ctx, case: &Case, counting: bool) -> PResult {
 		}
 		if case.base {
 			ev.class("histories_on_base_chain");
+		}
+		if case.archive {
+			ev.class("histories_in_archive_mode");
 		}
 		if !case.real {
 			ev.class("histories_with_free_difficulty");
